@@ -26,6 +26,7 @@ from . import c11_util as U
 
 TLC_ENV = {"_JAVA_OPTIONS": "-Xss256m"}   # deep (not infinite) recursion over gate sequences
 DTNONE = -1
+CYC_SWEEPS = 6
 
 
 # ----------------------------------------------------------------------------- chains
@@ -74,6 +75,10 @@ class Obj:
         self.norm0 = float(np.linalg.norm(self.ref))
         if split is None:
             split = {"cutoff": 0.0} if dense else {"max_bond": 3, "cutoff": 1e-10}
+            if dense and cyclic:
+                # no canonical form on a ring: every sweep doubles the bonds, so the untruncated comparison is
+                # limited to the first CYC_SWEEPS sweeps (bonds <= 2**CYC_SWEEPS) and the cost is capped after
+                split = {"cutoff": 0.0, "max_bond": 2 ** CYC_SWEEPS}
         self.split = split
         self.t = t0          # specification time (grains)
         self.sdt = dt0
@@ -137,23 +142,24 @@ class Obj:
         if op == "at_times":
             rec["ts"] = list(ts)
         # dense relations (untruncated runs only; periodic chains double their bonds every sweep)
-        nsw = len({(k, r["p"], r["q"]) for k, r in enumerate(grecs)})  # upper bound, refined below
         self.sweeps += _count_sweeps(grecs, self.L)
-        if self.dense and not exc and (not self.cyclic or self.sweeps <= 7):
+        if self.dense and not exc and (not self.cyclic or self.sweeps <= CYC_SWEEPS):
             ref = U.product_on_state(self.ref, exps, self.ham.terms, self.imag, g, self.L)
             if ref is not None:
                 got = U.dense_state(self.tebd.pt, self.L)
                 if self.imag:
-                    nr = np.linalg.norm(ref)
+                    # normalised product formula: direction and norm are two clauses
+                    nr, ng = np.linalg.norm(ref), np.linalg.norm(got)
                     ref = ref / nr if nr > 0 else ref
-                    rec["nq"] = qdiff(np.linalg.norm(got), 1.0, 1e-9)
+                    rec["nq"] = qdiff(ng, 1.0, 1e-9)
+                    rec["dq"] = qdiff(got / ng if ng > 0 else got, ref, 1e-8)
                 else:
                     rec["nq"] = qdiff(np.linalg.norm(got), self.norm0, 1e-9)
-                rec["dq"] = qdiff(got, ref, 1e-8)
+                    rec["dq"] = qdiff(got, ref, 1e-8)
                 rec["dense"] = True
                 self.ref = ref
-        elif self.cyclic and self.sweeps > 7:
-            self.dense = False
+        elif self.cyclic and self.sweeps > CYC_SWEEPS:
+            self.dense = False       # bonds reached the cap: later states are truncated, only the gate log is judged
         # advance the specification's view of the object
         if not exc and not (op == "update_to" and T < self.t):
             if op == "step":
@@ -238,3 +244,485 @@ def random_history(seed, tid, quick):
         if recs[-1]["exc"]:
             break
     return recs
+
+
+# ----------------------------------------------------------------------------- S->C replay of TLC behaviours
+
+def replay_behaviour(beh, seed, tid):
+    """beh: list of model history entries [{call: {op, order, args}, dt0, t, layers}]"""
+    rng = np.random.default_rng(seed)
+    L = int(rng.integers(3, 7))
+    cyclic = bool(rng.random() < 0.35)
+    imag = bool(rng.random() < 0.3)
+    dense = bool(not cyclic and rng.random() < 0.6)
+    dt0 = int(beh[0]["dt0"])
+    ob = Obj(rng, tid, L, cyclic, imag, 1.0 / 64, dt0, 0, dense)
+    recs = [ob.init_record()]
+    if ob.tebd is None:
+        return recs
+    for e in beh:
+        c = e["call"]
+        a = c["args"]
+        if c["op"] == "update_to":
+            r = ob.call("update_to", int(a["order"]), T=int(a["T"]), dt=int(a["dt"]))
+        elif c["op"] == "at_times":
+            r = ob.call("at_times", int(a["order"]), ts=[int(x) for x in a["ts"]], dt=int(a["dt"]))
+        else:
+            r = ob.call("step", int(a["order"]), dt=int(a["dt"]))
+        r["model_t"] = int(e["t"])
+        recs.append(r)
+        if r["exc"]:
+            break
+    return recs
+
+
+# ----------------------------------------------------------------------------- LocalHam*: exact sums
+
+def _coord_numbers(pairs):
+    c = {}
+    for a, b in pairs:
+        c[a] = c.get(a, 0) + 1
+        c[b] = c.get(b, 0) + 1
+    return c
+
+
+def ham_case(rng, k):
+    """LocalHam1D / LocalHamGen / LocalHam2D from small Gaussian-integer matrices; one-site parts are
+    multiples of the coordination number so that the shared parts stay integers"""
+    import quimb.tensor as qtn
+
+    kind = ["1d", "1d", "1d-default", "gen", "gen-rev", "2d"][k % 6]
+    exc = ""
+    supplied, terms_rec, n = [], [], 0
+    site_id = None
+    dqsum = 0
+    try:
+        if kind.startswith("1d"):
+            L = int(rng.integers(2, 5)) if k % 12 < 10 else 4
+            cyclic = bool(L > 2 and rng.random() < 0.5)
+            n = L
+            nb = L if cyclic else L - 1
+            pairs = [(b, (b + 1) % L) for b in range(nb)]
+            und = [tuple(sorted(p)) for p in pairs]
+            cn = _coord_numbers(und)
+            if kind == "1d-default":
+                h2 = U.rand_gint_matrix(rng, 4)
+                special = pairs[int(rng.integers(len(pairs)))]
+                hs = U.rand_gint_matrix(rng, 4)
+                H2 = {None: h2, special: hs}
+                sup2 = {p: (hs if p == special else h2) for p in pairs}
+                lcm = 2 if L > 2 else 1
+                h1 = lcm * U.rand_gint_matrix(rng, 2)
+                extra = int(rng.integers(L))
+                h1x = cn[extra] * U.rand_gint_matrix(rng, 2)
+                H1 = {None: h1, extra: h1x}
+                sup1 = {i: (h1x if i == extra else h1) for i in range(L)}
+            else:
+                # keys in either orientation
+                H2, sup2 = {}, {}
+                for p in pairs:
+                    h = U.rand_gint_matrix(rng, 4)
+                    key = p if rng.random() < 0.6 else (p[1], p[0])
+                    H2[key] = h
+                    sup2[key] = h
+                sup1 = {i: cn[i] * U.rand_gint_matrix(rng, 2) for i in range(L) if rng.random() < 0.8}
+                H1 = dict(sup1) if sup1 else None
+            ham = qtn.LocalHam1D(L, H2=H2, H1=H1, cyclic=cyclic)
+            site_id = {i: i for i in range(L)}
+        elif kind in ("gen", "gen-rev"):
+            graphs = [[(0, 1), (1, 2), (0, 2)], [(0, 1), (0, 2), (0, 3)], [(0, 1), (1, 2), (2, 3), (0, 3)], [(0, 2), (1, 2)]]
+            edges = graphs[(k // 6) % len(graphs)]
+            n = 1 + max(max(e) for e in edges)
+            cn = _coord_numbers(edges)
+            H2, sup2 = {}, {}
+            for e in edges:
+                key = e if (kind == "gen" or rng.random() < 0.5) else (e[1], e[0])
+                h = U.rand_gint_matrix(rng, 4)
+                H2[key] = h
+                sup2[key] = h
+            if kind == "gen-rev" and rng.random() < 0.7:
+                # the same pair supplied in both orientations: the two operators add up
+                e = edges[0]
+                other = (e[1], e[0]) if e in H2 else e
+                h = U.rand_gint_matrix(rng, 4)
+                H2[other] = h
+                sup2[other] = h
+            sup1 = {i: cn[i] * U.rand_gint_matrix(rng, 2) for i in range(n) if rng.random() < 0.8}
+            ham = qtn.LocalHamGen(H2=H2, H1=dict(sup1) if sup1 else None)
+            site_id = {i: i for i in range(n)}
+        else:
+            Lx, Ly = 2, 2
+            n = 4
+            site_id = {(i, j): i * Ly + j for i in range(Lx) for j in range(Ly)}
+            bonds = [((0, 0), (0, 1)), ((1, 0), (1, 1)), ((0, 0), (1, 0)), ((0, 1), (1, 1))]
+            h2 = U.rand_gint_matrix(rng, 4)
+            sp = bonds[int(rng.integers(4))]
+            hs = U.rand_gint_matrix(rng, 4)
+            spk = sp if rng.random() < 0.5 else (sp[1], sp[0])
+            H2 = {None: h2, spk: hs}
+            sup2 = {b: h2 for b in bonds if b != sp}
+            sup2[spk] = hs
+            h1 = 2 * U.rand_gint_matrix(rng, 2)
+            sup1 = {c: h1 for c in site_id}
+            ham = qtn.LocalHam2D(Lx, Ly, H2=H2, H1=h1)
+        for key, h in sup2.items():
+            supplied.append({"sites": [site_id[key[0]], site_id[key[1]]], "m": U.garr(h)})
+        for key, h in sup1.items():
+            supplied.append({"sites": [site_id[key]], "m": U.garr(h)})
+        ongrid = True
+        got = sum(U.embed(h, [site_id[key[0]], site_id[key[1]]], n) for key, h in ham.terms.items())
+        want = sum(U.embed(h, [site_id[key[0]], site_id[key[1]]], n) for key, h in sup2.items())
+        if sup1:
+            want = want + sum(U.embed(h, [site_id[key]], n) for key, h in sup1.items())
+        dqsum = int(qdiff(got, want, 1e-10))
+        for key, h in ham.terms.items():
+            g = U.snap_garr(h)
+            if g is None:
+                ongrid = False
+                g = []
+            terms_rec.append({"sites": [site_id[key[0]], site_id[key[1]]], "m": g})
+    except Exception as ex:  # noqa
+        exc = type(ex).__name__
+        ongrid = False
+    return {"ev": "ham", "tid": 500000 + k, "kind": kind, "n": n, "exc": exc, "ongrid": ongrid, "dqsum": dqsum,
+            "supplied": supplied, "terms": terms_rec}
+
+
+def hamq_case(rng, k):
+    """random float Hamiltonians on longer chains: numpy sum of embedded terms vs supplied"""
+    L = int(rng.integers(2, 7))
+    cyclic = bool(L > 2 and rng.random() < 0.5)
+    exc, dq = "", 0
+    try:
+        ham, H2, H1 = make_chain(rng, L, cyclic)
+        got = sum(U.embed(h, list(key), L) for key, h in ham.terms.items())
+        dq = qdiff(got, dense_ham(H2, H1, L), 1e-10)
+    except Exception as ex:  # noqa
+        exc = type(ex).__name__
+    return {"ev": "hamq", "tid": 510000 + k, "L": L, "cyc": cyclic, "exc": exc, "dq": int(dq)}
+
+
+# ----------------------------------------------------------------------------- expm cache
+
+def expm_case(rng, k):
+    """get_gate_expm must be the exponential of the *current* term, also after apply_to_arrays"""
+    import quimb.tensor as qtn
+
+    recs = []
+    kind = ["1d", "gen", "1d-h1"][k % 3]
+    n = int(rng.integers(3, 6))
+    try:
+        if kind == "gen":
+            ham = qtn.LocalHamGen({(i, i + 1): U.rand_herm(rng, 4) for i in range(n - 1)})
+        elif kind == "1d":
+            ham = qtn.LocalHam1D(n, H2={(i, i + 1): U.rand_herm(rng, 4) for i in range(n - 1)})
+        else:
+            ham = qtn.LocalHam1D(n, H2=U.rand_herm(rng, 4), H1=U.rand_herm(rng, 2), cyclic=bool(rng.random() < 0.5))
+    except Exception as ex:  # noqa
+        return [{"ev": "expm", "tid": 520000 + k, "exc": type(ex).__name__, "dqs": [], "after_apply": False, "kind": kind}]
+    xs = [-0.5, -0.25j, 0.3 - 0.1j, 0.5j, 0.25]     # equal magnitudes, different phases: distinct cache entries
+
+    def probe(stage, after):
+        exc, dqs = "", []
+        try:
+            for key in list(ham.terms):
+                for x in xs:
+                    got = ham.get_gate_expm(key, x)
+                    dqs.append(int(qdiff(got, sla.expm(x * np.asarray(ham.terms[key])), 1e-9)))
+        except Exception as ex:  # noqa
+            exc = type(ex).__name__
+        recs.append({"ev": "expm", "tid": 520000 + k, "exc": exc, "dqs": dqs, "after_apply": after, "stage": stage, "kind": kind})
+
+    probe("fresh", False)
+    probe("cached", False)
+    fns = [lambda x: 2 * x, lambda x: x + 0.5 * np.eye(x.shape[0]), lambda x: np.asarray(x).conj() * 1.5]
+    for j in range(2):
+        try:
+            ham.apply_to_arrays(fns[int(rng.integers(len(fns)))])
+        except Exception as ex:  # noqa
+            recs.append({"ev": "expm", "tid": 520000 + k, "exc": type(ex).__name__, "dqs": [], "after_apply": True, "stage": "apply", "kind": kind})
+            break
+        gc.collect()
+        probe("after-apply-%d" % (j + 1), True)
+    return recs
+
+
+# ----------------------------------------------------------------------------- convergence order
+
+def _ratio_q(a, b):
+    """100 * a / b as a capped integer (b > 0)"""
+    if not (np.isfinite(a) and np.isfinite(b)) or b <= 0:
+        return 0
+    return int(min(100.0 * a / b, 10 ** 7))
+
+
+def conv_case(rng, k, L, cyclic, order, imag=False):
+    """error of TEBD against exact evolution with the *supplied* Hamiltonian at n, 2n, 4n steps.
+    Parameters sit in the asymptotic regime (measured ratios 1.9-2.1 / 3.9-4.2 / 15.5-16.5 against
+    thresholds 1.4 / 2.8 / 11.2) and far above the floating point floor."""
+    import quimb.tensor as qtn
+
+    rec = {"ev": "conv", "tid": 530000 + k, "L": L, "cyc": bool(cyclic), "order": order, "imag": bool(imag),
+           "symmetric_splitting": not (cyclic and L % 2 == 1), "exc": "", "above_floor": False, "r1": 0, "r2": 0}
+    try:
+        nb = L if cyclic else L - 1
+        H2 = {(b, (b + 1) % L): U.rand_herm(rng, 4, True, 0.6) for b in range(nb)}
+        H1 = {i: U.rand_herm(rng, 2, True, 0.4) for i in range(L)}
+        ham = qtn.LocalHam1D(L, H2=H2, H1=H1, cyclic=cyclic)
+        Hd = dense_ham(H2, H1, L)
+        psi0 = qtn.MPS_rand_state(L, 1 if cyclic else 2, cyclic=cyclic, dtype="complex128", seed=int(rng.integers(1 << 30)))
+        p0 = U.dense_state(psi0, L)
+        if cyclic:
+            Tt = 0.25
+            ns = (1, 2, 4) if order == 1 else (1, 2)
+            split = {"cutoff": 0.0}
+        else:
+            Tt = 1.0
+            ns = (4, 8, 16)
+            split = {"cutoff": 0.0}
+        exact = sla.expm((-Tt if imag else -1j * Tt) * Hd) @ p0
+        if imag:
+            exact = exact / np.linalg.norm(exact)
+        errs = []
+        for n in ns:
+            tebd = qtn.TEBD(psi0, ham, dt=Tt / n, split_opts=dict(split), progbar=False, imag=imag)
+            tebd.update_to(Tt, order=order, progbar=False)
+            errs.append(float(np.linalg.norm(U.dense_state(tebd.pt, L) - exact)))
+        rec["errs_e12"] = [int(min(e * 1e12, 2 ** 30)) for e in errs]
+        rec["above_floor"] = bool(min(errs) > 1e-10)
+        rec["r1"] = _ratio_q(errs[0], errs[1])
+        rec["r2"] = _ratio_q(errs[1], errs[2]) if len(errs) > 2 else rec["r1"]
+    except Exception as ex:  # noqa
+        rec["exc"] = type(ex).__name__
+    return rec
+
+
+# ----------------------------------------------------------------------------- arbitrary geometry
+
+GRAPHS = {
+    "triangle-tail": [(0, 1), (1, 2), (0, 2), (2, 3)],
+    "star": [(0, 1), (0, 2), (0, 3)],
+    "square": [(0, 1), (1, 2), (2, 3), (0, 3)],
+    "path5": [(0, 1), (1, 2), (2, 3), (3, 4)],
+}
+
+
+def _gen_ham(rng, edges, scale=0.6):
+    import quimb.tensor as qtn
+
+    n = 1 + max(max(e) for e in edges)
+    H2 = {e: U.rand_herm(rng, 4, True, scale) for e in edges}
+    H1 = {i: U.rand_herm(rng, 2, True, 0.4) for i in range(n)}
+    return qtn.LocalHamGen(H2=H2, H1=H1), H2, H1, n
+
+
+def trot_case(rng, k):
+    """LocalHamGen.get_trotter_gates: bookkeeping of layers / fractions and the gates themselves"""
+    name = list(GRAPHS)[k % len(GRAPHS)]
+    edges = GRAPHS[name]
+    order = [1, 2, 4][(k // len(GRAPHS)) % 3]
+    steps = int(rng.integers(1, 4))
+    fuse = bool(rng.random() < 0.6)
+    alt = bool(rng.random() < 0.5)
+    x = [-0.125, -0.25j, -0.0625j][int(rng.integers(3))]
+    rec = {"ev": "trot", "tid": 540000 + k, "graph": name, "order": order, "steps": steps, "fuse": fuse, "alt": alt,
+           "exc": "", "ongrid": True, "gates": [], "pairs": [], "dg": 0}
+    try:
+        ham, H2, H1, n = _gen_ham(rng, edges)
+        pairs = [tuple(p) for p in ham.terms]
+        rec["pairs"] = [[int(a), int(b)] for a, b in pairs]
+        gates = ham.get_trotter_gates(x, order=order, steps=steps, fuse_adjacent=fuse, alternate=alt)
+        worst = 0
+        for g in gates:
+            pq = U.snap_coef(float(g.frac), 1.0)      # fraction = (p + q s)/2
+            w = pairs.index(tuple(sorted(g.where)))
+            if pq is None:
+                rec["ongrid"] = False
+                pq = (0, 0)
+            rec["gates"].append([int(g.layer), w, pq[0], pq[1]])
+            ref = sla.expm(U.coef_value(pq[0], pq[1], 1.0) * x * U.oriented_term(ham.terms, tuple(g.where)))
+            worst = max(worst, qdiff(g.U, ref, 1e-9))
+        rec["dg"] = int(worst)
+    except Exception as ex:  # noqa
+        rec["exc"] = type(ex).__name__
+    return rec
+
+
+def genconv_case(rng, k):
+    """the product of the gates of get_trotter_gates converges to expm(xH) at the stated order"""
+    name = list(GRAPHS)[k % len(GRAPHS)]
+    edges = GRAPHS[name]
+    order = [1, 2, 4][(k // len(GRAPHS)) % 3]
+    rec = {"ev": "conv", "tid": 550000 + k, "L": 0, "cyc": False, "order": order, "imag": False, "graph": name,
+           "symmetric_splitting": True, "exc": "", "above_floor": False, "r1": 0, "r2": 0}
+    try:
+        ham, H2, H1, n = _gen_ham(rng, edges, 0.5)
+        Hd = sum(U.embed(h, list(e), n) for e, h in H2.items()) + sum(U.embed(h, [i], n) for i, h in H1.items())
+        Tt = 1.0
+        exact = sla.expm(-1j * Tt * Hd)
+        errs = []
+        for m in (4, 8, 16):
+            V = np.eye(2 ** n, dtype=complex)
+            for Ug, where in ham.get_trotter_gates(-1j * Tt / m, order=order, steps=m):
+                V = U.embed(Ug, list(where), n) @ V
+            errs.append(float(np.linalg.norm(V - exact, 2)))
+        rec["errs_e12"] = [int(min(e * 1e12, 2 ** 30)) for e in errs]
+        rec["above_floor"] = bool(min(errs) > 1e-10)
+        rec["r1"] = _ratio_q(errs[0], errs[1])
+        rec["r2"] = _ratio_q(errs[1], errs[2])
+    except Exception as ex:  # noqa
+        rec["exc"] = type(ex).__name__
+    return rec
+
+
+def tgen_case(rng, k):
+    """TEBDGen.evolve (imaginary time, untruncated) is the product of the exponentials of the terms"""
+    import quimb.tensor as qtn
+
+    name = ["star", "path5", "square"][k % 3]
+    edges = GRAPHS[name]
+    reflect = bool(k % 2)
+    steps = int(rng.integers(1, 4))
+    tau = 0.125
+    rec = {"ev": "tgen", "tid": 560000 + k, "graph": name, "reflect": reflect, "steps": steps, "exc": "", "dq": 0}
+    try:
+        ham, H2, H1, n = _gen_ham(rng, edges)
+        psi0 = qtn.TN_from_edges_rand(edges, D=2, phys_dim=2, seed=int(rng.integers(1 << 30)), dtype="complex128")
+        ordering = sorted(ham.terms)
+        tebd = qtn.TEBDGen(psi0, ham, tau=tau, D=64, cutoff=0.0, imag=True, ordering=ordering,
+                           second_order_reflect=reflect, compute_energy_final=False, progbar=False)
+        ref = np.asarray(psi0.to_dense([psi0.site_ind(i) for i in range(n)])).reshape(-1)
+        tebd.evolve(steps, progbar=False)
+        seq = list(ordering) + (list(reversed(ordering)) if reflect else [])
+        f = 2.0 if reflect else 1.0
+        for _ in range(steps):
+            for where in seq:
+                ref = U.apply_local(ref, sla.expm(-tau / f * np.asarray(ham.terms[where])), list(where), n)
+        st = tebd.state
+        got = np.asarray(st.to_dense([st.site_ind(i) for i in range(n)])).reshape(-1)
+        rec["dq"] = int(qdiff(got / np.linalg.norm(got), ref / np.linalg.norm(ref), 1e-8))
+    except Exception as ex:  # noqa
+        rec["exc"] = type(ex).__name__
+    return rec
+
+
+# ----------------------------------------------------------------------------- run
+
+MAIN_ACTIONS = ("UpdateTo", "AtTimes", "Step")
+CLAUSES = ["Returns", "BackwardsRejectedCleanly", "GatesOnGrid", "LayersComplete", "ProductFormula", "ClassSums",
+           "StepsWithinDt", "Symmetric", "TimeExact", "QueueDrained", "AtTimesYields", "GateIsExpmOfTerm",
+           "DenseEqualsProduct", "NormPreserved", "ImagNormalised", "HamSumExact", "TermKeysSorted",
+           "HamSum", "ExpmOfCurrentTerm", "ConvergenceMeasurable", "ConvergenceOrder", "TermFractions",
+           "LayersCommute", "LayerUniform",
+           "model: TimeExact QueueDrained ProductFormula ClassSumsOK StepsWithinDt Symmetric ImagNormalised "
+           "WrapOriented TotalSums + ASSUME ChainOK GatesRoundTrip"]
+
+
+def split_behaviours(vals):
+    out = []
+    for v in vals:
+        if isinstance(v, list) and v and all(isinstance(e, dict) and "call" in e for e in v):
+            out.append(v)
+    return out
+
+
+def run(ctx):
+    quick = ctx.tier == "quick"
+    seed = ctx.seed
+    rng = np.random.default_rng(1000 + seed)
+
+    # 1. TLC: every history of public calls of the implementation-shaped model satisfies the property level
+    ctx.model_check("MC_C11", "MC_quick.cfg" if quick else "MC_thorough.cfg", name="tebd-histories",
+                    require_actions=MAIN_ACTIONS, env=TLC_ENV, timeout=1500)
+    if not quick:
+        ctx.model_check("MC_C11", "MC_thorough_ts.cfg", name="tebd-histories-at_times<=3", require_actions=MAIN_ACTIONS,
+                        env=TLC_ENV, timeout=1500)
+    selftests = (("MC_branches.cfg", "NotAllBranches", "all five branches of sweep's queue logic are reached"),
+                 ("MC_imagsite.cfg", "ImagNormalised", "pre-fix 7f3de1c3: left sweep renormalises site 1, order 1 ends unnormalised"),
+                 ("MC_wrap.cfg", "WrapOriented", "pre-fix b5edf86a: wrap-around gate applied with its legs exchanged"),
+                 ("MC_pubqueue.cfg", "TotalSums", "undocumented step(queue=True) followed by a change of dt mis-scales the queued sweep"))
+    for cfg, inv, what in selftests:
+        r = T.run_tlc("MC_C11", cfg, ctx.spec_dir, workers=4, allow_violation=True, scratch=ctx.scratch, timeout=600, env=TLC_ENV)
+        if r.violated != inv:
+            raise MachineryError("model self-test %s: expected %s to be violated, got %r" % (cfg, inv, r.violated))
+        ctx.extra.setdefault("model_selftests", []).append("%s: TLC finds a %s counterexample (%s)" % (cfg, inv, what))
+
+    recs = []
+    ntr = 0
+
+    # 2. S->C: call sequences simulated by TLC, replayed on real TEBD objects
+    nsim = 40 if quick else 400
+    res = T.run_tlc("MC_C11", "MC_sim.cfg", ctx.spec_dir, workers=1, coverage=False, simulate="num=%d" % nsim,
+                    depth=4, seed=11 + seed, scratch=ctx.scratch, timeout=900, env=TLC_ENV)
+    behs = split_behaviours(T.parse_printed_json(res.output))
+    if len(behs) < nsim // 2:
+        raise MachineryError("could not read the simulated behaviours back (%d of %d)" % (len(behs), nsim))
+    srecs = []
+    for k, b in enumerate(behs):
+        srecs += replay_behaviour(b, 7000 + 97 * seed + k, k)
+    ctx.sample({"replayed_behaviour": [dict(e["call"]["args"], op=e["call"]["op"]) for e in behs[0]]})
+    ctx.extra["replayed_behaviours"] = len(behs)
+    fails = []
+
+    # 3. C->S: random histories
+    nh = 90 if quick else 1200
+    hrecs = []
+    for k in range(nh):
+        hrecs += random_history(100000 * (seed + 1) + k, 100000 + k, quick)
+    ctx.sample({"history": [{kk: vv for kk, vv in r.items() if kk not in ("gates",)} for r in hrecs[:3]]})
+    ctx.extra["history_calls"] = sum(1 for r in hrecs + srecs if r["ev"] == "call")
+    ctx.extra["gates_recorded"] = sum(len(r.get("gates", [])) for r in hrecs + srecs)
+    ctx.extra["dense_comparisons"] = sum(1 for r in hrecs + srecs if r.get("dense"))
+
+    # 4. Hamiltonian objects, expm cache, convergence, arbitrary geometry
+    orecs = []
+    for k in range(24 if quick else 240):
+        orecs.append(ham_case(rng, k))
+    for k in range(20 if quick else 200):
+        orecs.append(hamq_case(rng, k))
+    for k in range(9 if quick else 90):
+        orecs += expm_case(rng, k)
+    conv = []
+    k = 0
+    reps = 1 if quick else 4
+    for rep in range(reps):
+        for L in ((3, 4, 5) if quick else (3, 4, 5, 6)):     # (two sites: a single bond, no splitting error at all)
+            for order in (1, 2, 4):
+                conv.append(conv_case(rng, k, L, False, order)); k += 1
+        for L in (3, 4) if quick else (3, 4, 5):
+            for order in (1, 2):
+                conv.append(conv_case(rng, k, L, True, order)); k += 1
+        for L, order in ((4, 1), (3, 2)) if quick else ((4, 1), (3, 2), (5, 2), (4, 4)):
+            conv.append(conv_case(rng, k, L, False, order, imag=True)); k += 1
+    orecs += conv
+    for k in range(12 if quick else 120):
+        orecs.append(trot_case(rng, k))
+    for k in range(6 if quick else 36):
+        orecs.append(genconv_case(rng, k))
+    for k in range(6 if quick else 48):
+        orecs.append(tgen_case(rng, k))
+    ctx.sample({"conv": [{kk: r[kk] for kk in ("L", "cyc", "order", "imag", "r1", "r2")} for r in conv[:8]]})
+    # one TLC start per 4000 records (trace ids: replays 0.., histories 100000.., objects 500000..)
+    fails += ctx.validate("C11_Trace", "Trace.cfg", srecs + hrecs + orecs, name="replay+history+objects",
+                          ntraces=len(behs) + nh + len({r["tid"] for r in orecs}), env=TLC_ENV, chunk=4000)
+    ctx.extra["min_ratio_x100_by_required_order"] = {
+        str(p): min([min(r["r1"], r["r2"]) for r in orecs if r["ev"] == "conv" and not r["exc"]
+                     and (r["order"] if r["symmetric_splitting"] else 1) == p] or [0]) for p in (1, 2, 4)}
+
+    notes = [f for f in fails if f["clause"].startswith("NOTE:")]
+    for n in notes[:10]:
+        ctx.notes.append("%s at tid %s op %s" % (n["clause"], n["record"].get("tid"), n["record"].get("op")))
+    ctx.extra["model_drift_records"] = len(notes)
+    ctx.clauses.update(CLAUSES)
+    ctx.assumptions += [
+        "times are whole grains (1/16 or 1/64); coefficients are snapped onto (p + q s)/2 grains with tolerance 2e-7 (unique: |q s - p| >= 1.3e-4 for |q| <= 5000)",
+        "public calls are update_to / at_times / step with the documented parameters; sweep(..., queue=True) and step(queue=True) are internal (undocumented parameter)",
+        "update_to(T < t) is a documented rejection (NotImplementedError) and must leave the object untouched",
+        "untruncated comparison on periodic chains only for the first %d sweeps (no canonical form: bonds double every sweep)" % CYC_SWEEPS,
+        "convergence: quantised error ratios at n, 2n, 4n steps must be >= 0.7 * 2^order (order 1 on odd periodic chains)",
+        "L = 2 periodic chains are outside the domain (both bonds join the same pair)",
+    ]
+    for f in fails:
+        if len(str(f["record"])) > 20000:
+            f["record"] = {k: v for k, v in f["record"].items() if k != "gates"}
+    ctx.judge([f for f in fails if not f["clause"].startswith("NOTE:")])
